@@ -59,7 +59,7 @@ func CompileRego(regoUnit *generator.RegoUnit, eventChan *chan e.Event) (compile
 	unsafeBuiltins := rego.UnsafeBuiltins(unsafeBuiltinsMap)
 	preparedEvalQuery, err := rego.New(query, module, unsafeBuiltins, keepPrintCalls()).PrepareForEval(context.Background())
 	if err == nil {
-		err = deniedCallsInPrintModifiers(regoUnit.Name+".rego", regoUnit.Code)
+		err = deniedCallsInWithModifiers(regoUnit.Name+".rego", regoUnit.Code)
 	}
 	dispatchEvent(e.NewEvent(e.RegoCompilationDone), eventChan)
 	return &preparedEvalQuery, err
